@@ -117,6 +117,10 @@ impl Ctx {
         self.world.stall_transport();
     }
 
+    pub fn force_grant(&self) {
+        self.world.force_grant();
+    }
+
     pub fn force_push(&self, label: &str) -> bool {
         self.world.force_push(label)
     }
